@@ -1,7 +1,7 @@
 //! Shared by the C14 / C15 / C16 harness binaries: staking + distribution histories run on the real
 //! StakeKeeper / DistributionKeeper through the public App API only (AppBuilder::build closure for
 //! setup, App::execute for StakingMsg / DistributionMsg, App::sudo for StakingSudo::Slash,
-//! App::update_block for block advances), observation of everything the three properties talk about
+//! App::update_block / App::set_block (alternating) for block advances), observation of everything the three properties talk about
 //! after every operation, and the printer of the Coq case terms judged by coq/Chk14.v.
 use common::*;
 use cosmwasm_std::testing::MockApi;
@@ -301,10 +301,18 @@ impl Runner {
                 .map_err(|e| e.root_cause().to_string()),
             Op::Advance { dt } => {
                 let dt = *dt;
-                app.update_block(move |b| {
-                    b.time = b.time.plus_nanos(dt);
-                    b.height += 1;
-                });
+                // both public ways of changing the block run the staking end blocker: alternate between them
+                let mut nb = app.block_info();
+                nb.time = nb.time.plus_nanos(dt);
+                nb.height += 1;
+                if nb.height % 2 == 0 {
+                    app.set_block(nb);
+                } else {
+                    app.update_block(move |b| {
+                        b.time = b.time.plus_nanos(dt);
+                        b.height += 1;
+                    });
+                }
                 Ok(())
             }
         });
